@@ -126,6 +126,8 @@ def reference_accepts(text: str):
     if text == "<empty>":
         return True
     if "||" in text:
+        if "===" in text:
+            return None  # union with an arbitrary-equality clause is documented as unsupported (ValueError, see C04)
         parts = text.split("||")
         verdicts = [True if p == "<empty>" else _pk(p) for p in parts]
         if any(p.strip() == "" for p in parts):
@@ -148,7 +150,7 @@ def evaluate(kind, case, acc):
     text = case["text"]
     exp = reference_accepts(text)
     if exp is None:
-        acc.discarded["outside-claim(+local or empty alternative)"] += 1
+        acc.discarded["outside-claim(+local, empty alternative, || with ===)"] += 1
         return
     acc.oracle_evaluations += 1
     try:
